@@ -359,7 +359,7 @@ class Run:
         seed_tempfile(record.get("seed", 0))
         self.model = {}
         self.model_step = {}
-        self.intact = {}  # spec key -> entry file
+        self.intact = {}  # spec key -> tuple of the files its store created (usually one)
         self.bad_files = set()
         self.probes = {}
         self.states = set()
@@ -468,7 +468,8 @@ class Run:
     def abstract_state(self):
         files = self.entry_files()
         pre = os.path.join(self.cwd_tag, CACHE_DIR)
-        valid = sum(1 for f in files if os.path.join(pre, f) in set(self.intact.values()) - self.bad_files)
+        owned = {f for fl in self.intact.values() for f in fl}
+        valid = sum(1 for f in files if os.path.join(pre, f) in owned - self.bad_files)
         bad = sum(1 for f in files if os.path.join(pre, f) in self.bad_files)
         other = len(files) - valid - bad
         return f"v{min(valid, 3)}b{min(bad, 2)}o{min(other, 2)}"
@@ -517,8 +518,8 @@ class Run:
         self.states.add(f"{self.abstract_state()}|req|{rel}")
         if meta.get("rel") == "neighbour" and self.cwd_tag + canon(self.rec["specs"][meta["of"]]) in self.intact:
             self.pairs.add(meta["kind"])
-        should_hit = (spec["footprint"] and skey in self.intact and self.intact[skey] not in self.bad_files
-                      and os.path.exists(os.path.join(self.run_dir, self.intact[skey])))
+        should_hit = (spec["footprint"] and skey in self.intact and not any(f in self.bad_files for f in self.intact[skey])
+                      and all(os.path.exists(os.path.join(self.run_dir, f)) for f in self.intact[skey]))
         f = op.get("fault")
         j0 = len(self.disk.journal)
         self.armed = None
@@ -559,7 +560,7 @@ class Run:
                 self.intact.clear()
             else:
                 for s2, fl in list(self.intact.items()):
-                    if fl in touched or s2 == skey:
+                    if any(f in touched for f in fl) or s2 == skey:
                         del self.intact[s2]
             self.bad_files.clear()
             self.new_process()
@@ -597,7 +598,7 @@ class Run:
             # the store failed: the entry (and whatever the request touched) is suspect
             touched = {op2[1] for op2 in self.disk.journal[j0:] if op2[0] in ("CREATE", "WRITE", "TRUNC")} | {op2[2] for op2 in self.disk.journal[j0:] if op2[0] == "RENAME"}
             for s2, fl in list(self.intact.items()):
-                if fl in touched or s2 == skey:
+                if any(f in touched for f in fl) or s2 == skey:
                     del self.intact[s2]
             return
         if st == "exc":
@@ -607,7 +608,7 @@ class Run:
             # equality to rounding is all C12 promises between processes - but
             # within one OS process a solve is bit-reproducible, so whatever this
             # process solved or stored itself must come back bit for bit
-            src = self.stored_by.get(self.intact.get(skey))
+            src = self.stored_by.get((self.intact.get(skey) or (None,))[0])
             if solved or src == self.real_proc:
                 raise Violation("transparent", "wrong-result", f"request {k} (spec {i}) is not bit-identical to the cache-less solve in the same process "
                                 f"({'solved' if solved else 'served from an entry this process stored'}): values were rounded on the way", {"op": k, "field": "rounded", "cause": ["rounding"]})
@@ -634,10 +635,13 @@ class Run:
             stored = self.stored_file(j0)
             if a is not None and a.get("done"):
                 return  # a swallowed I/O error: the store is not acknowledged
-            if len(stored) == 1:
-                self.intact[skey] = stored[0]
-                self.stored_by[stored[0]] = self.real_proc
-                self.bad_files.discard(stored[0])
+            if stored:
+                # every file the store created or renamed into the directory is
+                # 'the entry' (usually exactly one)
+                self.intact[skey] = tuple(sorted(stored))
+                for f in stored:
+                    self.stored_by[f] = self.real_proc
+                    self.bad_files.discard(f)
             elif len(stored) == 0 and not solved:
                 # a correct hit on an entry another request stored: remember it
                 if skey not in self.intact:
@@ -683,7 +687,7 @@ class Run:
             key = self.cwd_tag + self.step_key(j, i)
             solved, j0, j1 = trace[i] if i < len(trace) else (None, 0, 0)
             fl = self.intact.get(key)
-            if fl is not None and fl not in self.bad_files and os.path.exists(os.path.join(self.run_dir, fl)):
+            if fl is not None and not any(f in self.bad_files for f in fl) and all(os.path.exists(os.path.join(self.run_dir, f)) for f in fl):
                 if solved:
                     raise Violation("effective", "re-solved", f"series op {k} step {i} repeats an identical stored step but solved again",
                                     {"op": k, "halo": "default" if self.rec["cfgs"][j]["domain"].get("halo") is None else "explicit"})
@@ -691,16 +695,19 @@ class Run:
                     self.probe("series_hit")
             if solved is not None:
                 stored = self.stored_file(j0, j1)
-                if len(stored) == 1:
-                    self.intact[key] = stored[0]
-                    self.stored_by[stored[0]] = self.real_proc
-                    self.bad_files.discard(stored[0])
+                if stored:
+                    self.intact[key] = tuple(sorted(stored))
+                    for f in stored:
+                        self.stored_by[f] = self.real_proc
+                        self.bad_files.discard(f)
         self.log.add(k, "series", j, [list(np.shape(r["flx"])) for r in out], [t[0] for t in trace])
 
     def op_damage(self, op, k):
         skey = self.cwd_tag + canon(self.rec["specs"][op["spec"]])
-        rel = self.intact.get(skey)
-        if not isinstance(rel, str) or not os.path.exists(os.path.join(self.run_dir, rel)):
+        fl = self.intact.get(skey) or ()
+        cand = [f for f in fl if f.endswith(".npz")] or list(fl)
+        rel = cand[0] if cand else None
+        if rel is None or not os.path.exists(os.path.join(self.run_dir, rel)):
             self.probe("damage_no_target")
             return
         p = os.path.join(self.run_dir, rel)
@@ -746,7 +753,7 @@ class Run:
         self.disk.snapshot_baseline()
         self.bad_files.add(rel)
         for s2, fl in list(self.intact.items()):
-            if fl == rel:
+            if rel in fl:
                 del self.intact[s2]
         self.fire("damage." + how["kind"])
         self.log.add(k, "damage", how["kind"], len(data), len(new))
@@ -763,7 +770,7 @@ class Run:
         self.disk.verify()
         pre = os.path.join(self.cwd_tag, CACHE_DIR) + "/"
         for s2, fl in list(self.intact.items()):
-            if isinstance(fl, str) and fl.startswith(pre):
+            if any(f.startswith(pre) for f in fl):
                 del self.intact[s2]
         self.bad_files = {f for f in self.bad_files if not f.startswith(pre)}
         self.log.add(k, "clear", sorted(self.names(f) for f in self.entry_files()))
@@ -998,22 +1005,30 @@ def execute_enum_trunc(job):
     out = {"status": "ok", "cases": 0, "kind": "enum_trunc"}
     try:
         args, exp, journal, files = _store_entry(spec, job["run_dir"])
-        entries = [f for f in files if f.endswith(".npz")]
-        if len(entries) != 1:
-            raise HarnessError(f"expected one stored entry, found {files}")
-        path = os.path.join(CACHE_DIR, entries[0])
-        with open(path, "rb") as fh:
-            data = fh.read()
-        out["entry_len"] = len(data)
+        if not files:
+            raise HarnessError("the storing request left no file in the cache directory")
+        # usually one entry file; a tree that splits an entry over several files
+        # gets every one of them truncated in turn (the others intact)
+        contents = {}
+        for f in files:
+            fp = os.path.join(CACHE_DIR, f)
+            if os.path.isfile(fp):
+                with open(fp, "rb") as fh:
+                    contents[f] = fh.read()
+        out["entry_len"] = max(len(d) for d in contents.values())
+        out["entry_files"] = len(contents)
         lo = job.get("lo", 0)
-        hi = min(job.get("hi", len(data)), len(data))
-        for L in range(lo, hi):
-            _clear_files()
-            with open(path, "wb") as fh:
-                fh.write(data[:L])
-            out["case"] = {"kind": "enum_trunc", "spec": spec, "lo": L, "hi": L + 1}
-            _check_after_damage(args, exp, f"entry truncated to {L} of {len(data)} bytes", recheck=(L % 16 == 0))
-            out["cases"] += 1
+        for f in sorted(contents):
+            data = contents[f]
+            hi = min(job.get("hi", len(data)), len(data))
+            for L in range(lo, hi):
+                _clear_files()
+                for g, d in contents.items():
+                    with open(os.path.join(CACHE_DIR, g), "wb") as fh:
+                        fh.write(d if g != f else d[:L])
+                out["case"] = {"kind": "enum_trunc", "spec": spec, "lo": L, "hi": L + 1}
+                _check_after_damage(args, exp, f"{'entry' if len(contents) == 1 else 'file ' + f[:16]} truncated to {L} of {len(data)} bytes", recheck=(L % 16 == 0))
+                out["cases"] += 1
         out.pop("case", None)
     except Violation as v:
         out["status"] = "violation"
@@ -1080,8 +1095,9 @@ def execute_enum_journal(job):
     try:
         args, exp, journal, files = _store_entry(spec, job["run_dir"])
         entries = [f for f in files if f.endswith(".npz")]
-        if len(entries) != 1:
-            raise HarnessError(f"expected one stored entry, found {files}")
+        if not entries:
+            raise HarnessError("the storing request left no entry in the cache directory")
+        single = len(entries) == 1
         entry_rel = os.path.join(CACHE_DIR, entries[0])
         out["journal_ops"] = len(journal)
         only = job.get("only")
@@ -1094,6 +1110,8 @@ def execute_enum_journal(job):
                 if job.get("lo") is not None and not (job["lo"] <= p < job["hi"]):
                     continue
                 img2 = dict(img)
+                if placed == "at_entry_path" and not single:
+                    continue
                 if placed == "at_entry_path":
                     # the same torn bytes under the entry's final name: what an
                     # interrupted in-place writer (an older BLDFM, a copied
